@@ -52,15 +52,18 @@ def gen_poly(src, d, order, autonomous=None, decoupled=False, scalar_jac=False):
 
 def gen_config(src, *, ssm=None, calib=None, strategy=None, lin=None, qmax=8, dmax=3, orders=(1, 2), priors=("iwp",),
                inits=("exact", "inexact"), allow_damp=True, allow_constraint_init=True, decoupled=False,
-               scalar_jac=False, lam_default=False):
+               scalar_jac=False, lam_default=False, q=None, d=None):
+    q_forced, d_forced = q, d
     ssm = ssm or src.choice("ssm", SSMS)
     calib = calib or src.choice("calib", CALIBS)
     strategy = strategy or src.choice("strategy", ["filter", "fixedpoint", "fixedinterval"])
     lin = lin or src.choice("lin", ["ts0", "ts1"])
-    d = src.weighted("d", [(1, 2), (2, 3), (3, 2)][:dmax])
+    d = src.weighted("d", [(1, 2), (2, 3), (3, 2)][:dmax]) if d_forced is None else d_forced
     order = src.weighted("order", [(1, 3), (2, 1)]) if 2 in orders else 1
     qlo = order
     q = max(qlo, min(qmax, src.weighted("q", [(1, 2), (2, 4), (3, 4), (4, 3), (5, 2), (6, 1), (7, 1), (8, 1)])))
+    if q_forced is not None:
+        q = max(qlo, q_forced)
     prior = src.choice("prior", list(priors)) if ssm == "dense" else "iwp"
     if prior != "iwp":  # exponential priors: mp.expm of a 2(q+1)d block matrix per step size -- keep it small
         d = min(d, 2)
